@@ -340,11 +340,24 @@ followed by anything returns `i` and leaves exactly what followed.
 `def_cfa_offset_sf`, `val_offset_sf`) and `set_loc` through a `DW_EH_PE` encoding are not in
 `Encodes` (the signed LEB128 value theorem belongs to C09 and has not landed; pointer encodings
 are C05's); they are covered by the differential run and the harness's independent decoder.
-The converse direction (whatever `parse` accepts is such an encoding) is also left to those. -/
+The converse direction is `decode_sound_partial`. -/
 theorem decode_complete_partial (m : Mode) (e : Endian) (asz : Nat) (aarch64 : Bool) (p : PtrParams)
     (i : Instr) (bs : Bytes) (h : Spec.Cfi.Encodes e asz aarch64 i bs) (pos : Nat) (rest : Bytes) :
     parse (Spec.Cfi.cfgOf m e asz aarch64 p) pos (bs ++ rest) = .ok (i, rest) :=
   Spec.Cfi.parse_encodes h pos rest
+
+/-- **Whatever `parse` accepts is an encoding from the tables**: if `CallFrameInstruction::parse`
+(no `DW_EH_PE` pointer encoding in force) returns `(i, rest)` and `i` is not one of the four
+signed-operand instructions, then the consumed prefix is an encoding of `i` per DWARF
+§6.4.2/§7.24 — opcode, operand kinds, LEB128 well-formedness, register numbers ≤ 0xffff, block
+lengths, address size ∈ {1,2,4,8} for `set_loc`, AArch64 vendor for `negate_ra_state`.
+*Partial* for the same reason as `decode_complete_partial`. -/
+theorem decode_sound_partial (m : Mode) (e : Endian) (asz : Nat) (aarch64 : Bool) (p : PtrParams) (pos : Nat)
+    (bs : Bytes) (i : Instr) (rest : Bytes)
+    (h : parse (Spec.Cfi.cfgOf m e asz aarch64 p) pos bs = .ok (i, rest))
+    (hs : Spec.Cfi.signedOperand i = false) :
+    ∃ pre, bs = pre ++ rest ∧ Spec.Cfi.Encodes e asz aarch64 i pre :=
+  Spec.Cfi.parse_sound h hs
 
 /-- the hypothesis is satisfiable: `DW_CFA_def_cfa r7, 8` and a padded `DW_CFA_offset_extended` -/
 example : Spec.Cfi.Encodes .little 8 false (.defCfa 7 8) [0x0c, 0x07, 0x08] :=
